@@ -312,7 +312,11 @@ impl Node {
         let mut seen = vec![];
         let mut root = Node::default();
         base.render_impl(r, &mut seen, &mut root)?;
-        self.render_impl(r, &mut seen, &mut base)?;
+        // All classes have been loaded through `base` (which carries our class list). Only
+        // merge our own definitions now: walking our includes a second time would resolve
+        // reference-bearing class names against the final parameters and could load a
+        // second, different class for the same include entry.
+        self.merge_into(&mut base)?;
         self.render_parameters()
     }
 }
